@@ -255,6 +255,23 @@ def bounded_separability(rep, tier, seed):
                 diff = apirel.compare_frames(ref, sub, nodes, rtol=1e-12, atol=1e-9)
                 if diff:
                     bad.append({"what": f"{d}: households {ka} simulated together with unrelated households {kb} ({layout}): {diff[:5]} differ from simulating them alone", "date": d, "kind": "separability", "A": ka, "B": kb, "layout": layout})
+                if layout == "interleaved" and trial < 2:
+                    # the same, read the way a user reads debug output: a frame that was sorted without
+                    # resetting its index; household A's rows are picked by the p_id column of the result
+                    ABs = AB.sort_values(["hh_id", "p_id"], ascending=[False, True])
+                    try:
+                        rdbg, _ = apirel.simulate(e, ABs, targets=nodes, debug=True)
+                        n_eval += 1
+                        distinct.add((d, trial, "sorted-index-debug"))
+                        sub = rdbg[rdbg["p_id"].isin(A["p_id"]).to_numpy()].sort_values("p_id").reset_index(drop=True)
+                        ref2 = ra.copy()
+                        ref2["p_id"] = A["p_id"].to_numpy()
+                        ref2 = ref2.sort_values("p_id").reset_index(drop=True)
+                        diff = apirel.compare_frames(ref2, sub, [n_ for n_ in nodes if n_ in sub.columns], rtol=1e-12, atol=1e-9)
+                        if len(sub) != len(A) or diff:
+                            bad.append({"what": f"{d}: households {ka} + {kb} in a frame sorted without resetting the index, debug=True: the rows the result shows for the persons of {ka} differ from simulating them alone in {diff[:5]} ({len(sub)} rows for {len(A)} persons)", "date": d, "kind": "separability", "A": ka, "B": kb, "layout": "sorted-index-debug"})
+                    except Exception as ex:  # noqa: BLE001
+                        bad.append({"what": f"{d}: households {ka} + {kb}, sorted frame, debug=True: call fails {ex!r}"[:300], "date": d, "kind": "separability", "A": ka, "B": kb, "layout": "sorted-index-debug"})
             # relabelling (non-monotone, somebody becomes 0, big gaps)
             ps = [int(p) for p in A["p_id"]]
             for style in ["reverse", "shuffle-with-zero", "gaps"] + [f"rotate-{k}" for k in range(1, len(ps))]:
